@@ -179,7 +179,7 @@ class Gate:
         self._wait_for("end", i)
 
 
-def _loader(n, chunks=None, seed=3, dtype="float32"):
+def _loader(n, chunks=None, seed=3, dtype="float32", layout="ascending"):
     import dask.array as da
     from acryo import Molecules, SubtomogramLoader
     from scipy.spatial.transform import Rotation
@@ -198,7 +198,12 @@ def _loader(n, chunks=None, seed=3, dtype="float32"):
         # other voxel types (int16 is the usual MRC mode): the numpy and the dask form of the SAME volume give the same results
         tomo = np.round(tomo * 100).astype(dtype) if dtype.startswith("int") else tomo.astype(dtype)
     img = tomo if chunks is None else da.from_array(tomo, chunks=chunks)
-    return SubtomogramLoader(img, Molecules(pos, rot), order=1, output_shape=(7, 7, 7)), tomo
+    mole = Molecules(pos, rot)
+    if layout == "cycle" and n >= 5:
+        # the molecule table is NOT in the order of the positions: the permutation that sorts it by position (or by the chunk
+        # holding each molecule) has a 3-cycle and a 2-cycle, so it is neither the identity nor its own inverse
+        mole = mole.subset([3, 0, 4, 1, 2] + list(range(5, n)))
+    return SubtomogramLoader(img, mole, order=1, output_shape=(7, 7, 7)), tomo
 
 
 def _ops(loader, M, gate_fn=None):
@@ -316,14 +321,15 @@ def replay_real(case) -> dict:
     M = dict(ZNCC=ZNCCAlignment, NCC=NCCAlignment, PCC=PCCAlignment, FSC=FSCAlignment)[case["model"]]
     n = case["n"]
     dt = case.get("dtype", "float32")
-    loader0, tomo = _loader(n, dtype=dt)
+    lay = case.get("layout", "ascending")
+    loader0, tomo = _loader(n, dtype=dt, layout=lay)
     with dask.config.set(scheduler="synchronous"):
         ref = {k: np.asarray(f()) for k, f in _ops(loader0, M)}
         # results are a function of each task's own inputs: the batch must equal one-molecule-at-a-time runs
-        ref.update(_one_at_a_time(_loader(n, dtype=dt)[0], M))
+        ref.update(_one_at_a_time(_loader(n, dtype=dt, layout=lay)[0], M))
     fails = []
     desc = dict(part=case["part"], model=case["model"], n=n, scheduler=case.get("scheduler"), workers=case.get("workers"), chunks=case.get("chunks"),
-                dtype=case.get("dtype", "float32"))
+                dtype=case.get("dtype", "float32"), layout=lay)
     half = len(ref["apply3"]) // 2
     if not np.array_equal(ref["apply3"][:half], ref["apply3"][half:]):
         fails.append(dict(desc, clause="ApplyGivesEachFunctionItsOwnSubvolume", scheduler_of="synchronous"))
@@ -348,7 +354,7 @@ def replay_real(case) -> dict:
         finally:
             sys.setswitchinterval(old)
     elif case["part"] == "chunks":
-        loader, _ = _loader(n, chunks=tuple(case["chunks"]), dtype=dt)
+        loader, _ = _loader(n, chunks=tuple(case["chunks"]), dtype=dt, layout=lay)
         for k, f in _ops(loader, M):
             v = np.asarray(engine.api(f))
             if v.shape != ref[k].shape or not np.array_equal(v, ref[k]):
@@ -484,6 +490,8 @@ def run(rep: engine.Report, tier: str, seed: int):
             cases.append(dict(part="scheduler", model=model, n=5, scheduler=sch, workers=wk, repeat=2 if quick else 6))
         for ch in ((26, 26, 82), (13, 13, 20), (7, 26, 9), (26, 5, 41)):
             cases.append(dict(part="chunks", model=model, n=5, chunks=list(ch)))
+        for ch in ((13, 13, 20), (26, 26, 14)):
+            cases.append(dict(part="chunks", model=model, n=5, chunks=list(ch), layout="cycle"))
         for dt in ("int16", "float64"):
             cases.append(dict(part="chunks", model=model, n=5, chunks=[13, 13, 20], dtype=dt))
             cases.append(dict(part="chunks", model=model, n=5, chunks=[26, 26, 82], dtype=dt))
